@@ -39,6 +39,11 @@ def check(name, cond):
         raise ContractViolation(name)
 
 
+def flat(log):
+    """Concatenation of the pieces written to a file (the pieces' boundaries are not observable)."""
+    return b"".join(bytes(x) for x in log)
+
+
 def ghost(name, value):
     """Named ghost value (no run-time effect); symbolic mode records it for reports."""
     return value
@@ -47,3 +52,42 @@ def ghost(name, value):
 def fresh_int(name):
     """Only meaningful symbolically (an arbitrary integer); concretely the harness must not be reached."""
     raise AssumptionFailed()
+
+
+class LogFile:
+    """Native counterpart of the file model: a writable/readable file that also keeps the ghost log of pieces."""
+
+    def __init__(self, data=b""):
+        self.written = []
+        self.data = bytes(data)
+        self.pos = 0
+        self.closed = False
+
+    def write(self, b):
+        self.written.append(bytes(b) if not isinstance(b, str) else b)
+        return len(b)
+
+    def seek(self, n):
+        self.written.append(("seek", n))
+        self.pos = n
+        return n
+
+    def read(self, n=-1):
+        if n is None or n < 0:
+            n = len(self.data) - self.pos
+        r = self.data[self.pos:self.pos + n]
+        self.pos += len(r)
+        return r
+
+    def peek(self, n=0):
+        return self.data[self.pos:self.pos + max(n, 1)]
+
+    def close(self):
+        self.closed = True
+
+    def __enter__(self):
+        return self
+
+    def __exit__(self, *a):
+        self.closed = True
+        return False
